@@ -35,6 +35,7 @@ class StageSpec:
     failp: bool = True            # failPipeline
     enabled: bool | None = None   # stageEnabled
     maxj: int | None = None       # stage-level _max_jumps
+    split: dict | None = None     # OR-split: {downstream stage index: bool value of its split condition}; None = AND-split
 
 
 @dataclass
@@ -50,7 +51,10 @@ class Spec:
         for s in self.stages:
             reqs = ",".join(map(str, s.reqs)) or "-"
             tasks = "+".join(".".join(t) for t in s.tasks) or "-"
-            parts.append("/".join([reqs, s.join, str(s.threshold), str(int(s.cont)), str(int(s.failp)), opt(s.enabled), opt(s.maxj), tasks]))
+            fields = [reqs, s.join, str(s.threshold), str(int(s.cont)), str(int(s.failp)), opt(s.enabled), opt(s.maxj), tasks]
+            if s.split:
+                fields.append(".".join(f"{int(d)}:{int(bool(b))}" for d, b in sorted((int(d), b) for d, b in s.split.items())))
+            parts.append("/".join(fields))
         return "#".join(parts)
 
     def to_json(self) -> dict:
@@ -277,9 +281,15 @@ class Engine:
                 ctx["_max_jumps"] = sp.maxj
             tasks = [TaskExecution.create(name=f"t{t}", implementing_class=f"T_{i}_{t}", stage_start=(t == 0),
                                           stage_end=(t == len(sp.tasks) - 1)) for t in range(len(sp.tasks))]
+            extra = {}
+            if sp.split:
+                from stabilize.models.stage import SplitType
+
+                extra = {"split_type": SplitType.OR,
+                         "split_conditions": {f"s{int(d)}": ("True" if b else "False") for d, b in sp.split.items()}}
             st = StageExecution(ref_id=f"s{i}", type="scripted", name=f"s{i}", context=ctx, tasks=tasks,
                                 requisite_stage_ref_ids={f"s{r}" for r in sp.reqs},
-                                join_type=JoinType[sp.join], join_threshold=sp.threshold)
+                                join_type=JoinType[sp.join], join_threshold=sp.threshold, **extra)
             stages.append(st)
         wf = Workflow.create(application="verif", name="wf", stages=stages)
         if self.spec.wf_maxj is not None:
